@@ -4,6 +4,7 @@ CONSTANTS Thr = {t1,t2,t3}
  ProcScope = "thread"
  DtorLocked = FALSE
  UsesPlanner = FALSE
+ PolyProc = "immortal"
  PolyShare = FALSE
  TableScope = "proc"
  TempScope = "call"
